@@ -299,6 +299,30 @@ type seqRun[E any] struct {
 	}
 	list col.ListLike[E]
 	res  core.Result
+	// sequences returned by earlier range reads/removals, with what they contained then:
+	// a returned sequence is a value of its own and must not change when the source does
+	kept []keptSeq[E]
+}
+
+type keptSeq[E any] struct {
+	seq  col.Sequential[E]
+	want []E
+	what string
+}
+
+func (r *seqRun[E]) keep(seq col.Sequential[E], want []E, what string) {
+	if seq != nil && len(r.kept) < 6 {
+		r.kept = append(r.kept, keptSeq[E]{seq, append([]E(nil), want...), what})
+	}
+}
+
+func (r *seqRun[E]) checkKept(step int, what string) *core.Violation {
+	for _, k := range r.kept {
+		if got := k.seq.AsArray(); !r.sameSlice(got, k.want) {
+			return core.Violate("C01/returned-sequence-changed/"+opName(k.what), "step %d after %s: the sequence returned earlier by %s was %v and is now %v", step, what, k.what, k.want, got)
+		}
+	}
+	return nil
 }
 
 func (r *seqRun[E]) vals(ix []int) []E {
@@ -586,6 +610,8 @@ func execSeq[E any](c seqCase, et elemType[E]) core.Result {
 				want := append([]E(nil), r.model[r.norm(i):r.norm(j)+1]...)
 				if got == nil || !r.sameSlice(got.AsArray(), want) {
 					v = core.Violate("C01/"+op.Op+"/wrong", "step %d: %s returned %v, abstract %v", step, what, seqString(got), want)
+				} else {
+					r.keep(got, want, what)
 				}
 				if op.Op == "RemoveValues" {
 					r.model = append(append([]E{}, r.model[:r.norm(i)]...), r.model[r.norm(j)+1:]...)
@@ -815,6 +841,9 @@ func execSeq[E any](c seqCase, et elemType[E]) core.Result {
 				break
 			}
 			r.model = got
+		}
+		if v == nil {
+			v = r.checkKept(step, what)
 		}
 		if v == nil {
 			v = r.checkState(step, what)
